@@ -6,7 +6,7 @@ class Check(ParCheck):
     prop = 'C12'
     theorems = ['slotTaken_applyAction', 'C12_single_use_linear', 'C12_at_most_one_delivery', 'C12_multi_use_intact',
                 'C12_typestate_value_level', 'C12_composite_single_use', 'C12_nonclone_quantified_once_only', 'run_nonclone',
-                'C12_composite_race_at_most_one', 'C12_composite_race_no_loss', 'C12_nonclone_segment_is_single_use']
+                'C12_composite_race_at_most_one', 'C12_composite_race_no_loss', 'C12_nonclone_segment_is_single_use', 'C12_source_clone_bounds', 'C12_source_nonclone_refused']
 
     def rule(self):
         return ("scenarios: a single-use response (some_call/next_call .returns(v) unquantified or .once(), also as the first "
